@@ -11,6 +11,7 @@ import (
 	"context"
 	"encoding/xml"
 	"errors"
+	"fmt"
 	"io"
 
 	"mellium.im/xmlstream"
@@ -76,7 +77,10 @@ func (c Command) ExecuteIQ(ctx context.Context, iq stanza.IQ, payload xml.TokenR
 	if err != nil {
 		return resp, nil, err
 	}
-	start := t.(xml.StartElement)
+	start, ok := t.(xml.StartElement)
+	if !ok {
+		return resp, nil, fmt.Errorf("commands: expected IQ start token, got %T %[1]v", t)
+	}
 	respIQ, err := stanza.UnmarshalIQError(respPayload, start)
 	if err != nil {
 		return resp, nil, err
@@ -86,7 +90,10 @@ func (c Command) ExecuteIQ(ctx context.Context, iq stanza.IQ, payload xml.TokenR
 	if err != nil {
 		return resp, nil, err
 	}
-	start = t.(xml.StartElement)
+	start, ok = t.(xml.StartElement)
+	if !ok {
+		return resp, nil, fmt.Errorf("commands: expected command start token, got %T %[1]v", t)
+	}
 	resp, err = respFromStart(start, respIQ)
 	if err != nil {
 		return resp, nil, err
